@@ -17,14 +17,7 @@ def np():
   return numpy
 
 
-# ---------------------------------------------------------------- canonical rows (must mirror Driver/Cons.lean)
-def key_of(v):
-  """floor(v*1e6 + 1/2); non-finite sorts last (as the model's undefined)."""
-  if not math.isfinite(v):
-    return BIG
-  return math.floor(v*1e6 + 0.5)
-
-
+# ---------------------------------------------------------------- rows of the implementation, aligned to the model's
 def scalar(v):
   a = np().asarray(v, dtype=float).reshape(-1)
   if a.size != 1:
@@ -36,8 +29,8 @@ def type_code(c):
   return {'ineq': 0.0, 'eq': 1.0}.get(c.get('type'), 2.0)
 
 
-def canon_rows(cons, probes, with_jac):
-  """rows [isEq, (hasJac,) values at the probes (, flat Jacobians at the probes)], sorted like the driver; flattened."""
+def impl_rows(cons, probes, with_jac):
+  """one row per exported constraint, in list order: [isEq, (hasJac,) values at the probes (, flat Jacobians at the probes)]."""
   rows = []
   for c in cons:
     row = [type_code(c)]
@@ -49,8 +42,95 @@ def canon_rows(cons, probes, with_jac):
       for x in probes:
         row += [float(u) for u in np().asarray(c['jac'](x), dtype=float).reshape(-1)]
     rows.append(row)
-  rows.sort(key=lambda r: [key_of(v) for v in r])
-  return [v for r in rows for v in r]
+  return rows
+
+
+def align_rows(mrows, irows):
+  """order-insensitive comparison without a discontinuous sort key: every model row (in the model's order) takes the
+  NEAREST unused implementation row of the same length (distance = largest relative entry difference; an undefined model
+  entry matches a non-finite implementation entry).  Rows are never rounded, so values that agree within the tolerance can
+  not be ordered differently on the two sides.  Unmatched implementation rows fill the unmatched positions / go last, so
+  that a dropped, added or changed constraint still shows as a size or value disagreement.  Returns the flattened rows."""
+  n_ = np()
+  if mrows is None:
+    return [v for r in irows for v in r]
+  used = [False]*len(irows)
+  by_len = {}
+  for k, r in enumerate(irows):
+    by_len.setdefault(len(r), []).append(k)
+  arrs = {L: n_.array([irows[k] for k in ks], dtype=float).reshape(len(ks), L) for L, ks in by_len.items()}
+  out = [None]*len(mrows)
+  for mi, m in enumerate(mrows):
+    L = len(m)
+    ks = by_len.get(L)
+    if not ks:
+      continue
+    M = n_.array([float('nan') if v is None else v for v in m], dtype=float)
+    I = arrs[L]
+    with n_.errstate(all='ignore'):
+      d = n_.abs(I - M)/n_.maximum(1.0, n_.maximum(n_.abs(M), n_.abs(I)))
+    mnan = n_.isnan(M)[None, :]
+    inf_ = ~n_.isfinite(I)
+    d = n_.where(mnan, n_.where(inf_, 0.0, n_.inf), n_.where(inf_, n_.inf, d))
+    dist = d.max(axis=1) if L else n_.zeros(len(ks))
+    best, bd = None, None
+    for j, k in enumerate(ks):
+      if not used[k] and (best is None or dist[j] < bd):
+        best, bd = k, dist[j]
+    if best is not None:
+      used[best] = True
+      out[mi] = irows[best]
+  left = [irows[k] for k in range(len(irows)) if not used[k]]
+  res = []
+  for r in out:
+    if r is None and left:
+      r = left.pop(0)
+    if r is not None:
+      res.append(r)
+  res += left
+  return [v for r in res for v in r]
+
+
+# ---------------------------------------------------------------- the model's rows (needed before the implementation's can be aligned)
+_MODEL = {}
+
+
+def _strip(x):
+  if isinstance(x, dict):
+    return {k: _strip(v) for k, v in x.items() if not k.startswith('_')}
+  if isinstance(x, list):
+    return [_strip(v) for v in x]
+  return x
+
+
+def _lkey(line):
+  import json
+  return json.dumps(_strip(line), sort_keys=True)
+
+
+def prefetch(lines):
+  """run the Lean model once for all the given `cons.leaf` / `cons.tree` lines and remember its rows."""
+  from . import common as C
+  need, seen = [], set()
+  for l in lines:
+    k = _lkey(l)
+    if k not in _MODEL and k not in seen:
+      seen.add(k); need.append((k, _strip(l)))
+  if not need:
+    return
+  answers = C.run_model([l for _, l in need])
+  for (k, _), ans in zip(need, answers):
+    if 'ok' in ans:
+      _MODEL[k] = [[None if v == 'undef' else pf(v) for v in row] for row in ans['ok']]
+    else:
+      _MODEL[k] = None
+
+
+def model_rows(line):
+  k = _lkey(line)
+  if k not in _MODEL:
+    prefetch([line])
+  return _MODEL[k]
 
 
 # ---------------------------------------------------------------- cumulative-bound forms
@@ -93,7 +173,12 @@ def gen_cbound_form(rng, n, lb, hb, form=None):
   return rows, ('2tuple' if form == '2tuple' else '4tuples'), form
 
 
-RATE_CLIPS = [None, ['1', None], [None, '1'], ['3/2', '2'], ['1', '1'], [None, '5/4'], ['2', None]]
+# (description pair, python form): the description always carries the pair the setter stores; the python form says how the
+# constructor receives it: absent, the keyword `rate_clip=None`, a scalar k (stored as (k, k)) or a pair (entries may be None)
+RATE_CLIPS = [(None, 'absent'), (None, 'absent'), ([None, None], 'none_kw'), ([None, None], 'pair'),
+              (['1', None], 'pair'), ([None, '1'], 'pair'), ([None, '5/4'], 'pair'), (['2', None], 'pair'), ([None, '3'], 'pair'),
+              (['3/2', '2'], 'pair'), (['3', '5/4'], 'pair'), (['1', '2'], 'pair'), (['1', '1'], 'pair'),
+              (['2', '2'], 'scalar'), (['1', '1'], 'scalar'), (['3/2', '3/2'], 'scalar')]
 
 
 def gen_cons_leaf(rng, tier, cls=None, n=None):
@@ -114,16 +199,54 @@ def gen_cons_leaf(rng, tier, cls=None, n=None):
   else:
     d['cbs'] = []; d['_py']['cform'] = None
   if cls == 'SDevice':
-    rc = rng.choice(RATE_CLIPS)
+    rc, rcform = rng.choice(RATE_CLIPS)
     if rc is not None:
       d['prm']['rate_clip'] = list(rc)
-    tag['rate_clip'] = rc is not None
+    d['_py']['rcform'] = rcform
+    tag['rate_clip'] = rcform + ':' + ('-' if rc is None else '/'.join('on' if v is not None else 'off' for v in rc))
+    if rng.random() < 0.12:
+      # the exported list must describe the device as it is NOW: build with another value, read .constraints, then use the setter
+      prm = rng.choice(['reserve', 'start', 'efficiency', 'sustainment', 'capacity'])
+      cur = F(d['prm'][prm])
+      alt = {'reserve': min(F(1), cur + Fraction(1, 2)), 'start': (cur + Fraction(1, 2)) % 1, 'efficiency': Fraction(1, 2) if cur != Fraction(1, 2) else F(1),
+             'sustainment': Fraction(3, 4) if cur != Fraction(3, 4) else F(1), 'capacity': cur + 2}[prm]
+      d['_py']['reread'] = [prm, fs(alt)]
+      tag['reread'] = prm
     tag['lossy'] = d['prm']['efficiency'] != '1'
     tag['leaky'] = d['prm']['sustainment'] != '1'
   if cls == 'ADevice' and rng.random() < 0.8:
     d['ucons'] = gen.gen_ucons(rng, n, lb, hb)
     tag['ucons'] = len(d['ucons'])
   return d, tag
+
+
+# ---------------------------------------------------------------- building
+def build_dev(d, id='dev'):
+  """`build.build_block_device` plus the Python-side forms only this generator uses: `rate_clip` handed over as a scalar /
+  as the keyword None, and a storage device one of whose parameters was set through its setter AFTER a first read of
+  `.constraints` (the exported list must describe the device as it is now)."""
+  py = d.get('_py', {})
+  if d['cls'] != 'SDevice' or (py.get('rcform') in (None, 'pair', 'absent') and not py.get('reread')):
+    return build.build_block_device(d, id)
+  from .common import repo
+  dk = repo()
+  p = dict(d['prm'])
+  rr = py.get('reread')
+  if rr:
+    p[rr[0]] = rr[1]
+  kw = {k: pf(v) for k, v in p.items() if k != 'rate_clip'}
+  form = py.get('rcform')
+  if form == 'none_kw':
+    kw['rate_clip'] = None
+  elif form == 'scalar':
+    kw['rate_clip'] = pf(p['rate_clip'][0])
+  elif 'rate_clip' in p:
+    kw['rate_clip'] = tuple(None if x is None else pf(x) for x in p['rate_clip'])
+  dev = dk.SDevice(id, d['n'], build.py_bounds(d), build.py_cbounds(d), **kw)
+  if rr:
+    _ = dev.constraints
+    setattr(dev, rr[0], pf(d['prm'][rr[0]]))
+  return dev
 
 
 # ---------------------------------------------------------------- the documented semantics, coded independently
